@@ -398,7 +398,7 @@ pub fn sets(ctx: &Ctx) -> Vec<CaseSet> {
     let (tb1, cfg1) = (tb.clone(), cfg.clone());
     out.push(CaseSet::new(
         "locations",
-        ctx.size(75_000, 4_800_000),
+        ctx.size(300_000, 4_800_000),
         Box::new(move |rep, rng, _| {
             let (input, q, tag) = crate::props::c06::gen_input(rng, &tb1, &cfg1, 400);
             // make many inputs multi-line
@@ -418,10 +418,33 @@ pub fn sets(ctx: &Ctx) -> Vec<CaseSet> {
         }),
     ));
 
+    // ---- errors far from the origin: line numbers and columns beyond 8 and 16 bits
+    out.push(CaseSet::new(
+        "far-error-locations",
+        28,
+        Box::new(move |rep, rng, case| {
+            let ks = [255usize, 256, 257, 65_535, 65_536, 65_537, 70_000];
+            let k = ks[(case as usize) % ks.len()];
+            let prefix: String = match (case as usize) / ks.len() {
+                0 => "\n".repeat(k),
+                1 => " ".repeat(k),
+                2 => format!(";{}\n", "c".repeat(k)),
+                _ => format!("\"{}\"\n\n", "é".repeat(k / 2)),
+            };
+            for bad in [")", "(a . )", "#\\spa", "\"\\q\"", "(1 2", "#<", "1e999999999", "\"abc"] {
+                let input = format!("{}{}", prefix, bad);
+                for q in [Q::default_(), Q::elisp()] {
+                    location_case(rep, input.as_bytes(), &q, rng);
+                }
+            }
+            rep.max("max_prefix_before_error", k as u64);
+        }),
+    ));
+
     // ---- truncation clause: fixed corpus x {dialect options, sampled options}
     let n_s = CORPUS_SCHEME.len() as u64;
     let n_e = CORPUS_ELISP.len() as u64;
-    let extra_q = ctx.size(6, 200);
+    let extra_q = ctx.size(16, 200);
     out.push(CaseSet::new(
         "truncation-corpus",
         (n_s + n_e) * (1 + extra_q),
@@ -439,7 +462,7 @@ pub fn sets(ctx: &Ctx) -> Vec<CaseSet> {
     let (tb2, cfg2) = (tb.clone(), cfg.clone());
     out.push(CaseSet::new(
         "truncation-generated",
-        ctx.size(7_500, 1_000_000),
+        ctx.size(30_000, 1_000_000),
         Box::new(move |rep, rng, _| {
             let v = gen::gen_value(rng, &cfg2, &tb2, 1);
             match rng.below(4) {
